@@ -243,7 +243,7 @@ func coqScheds(ss []SchedObs) string {
 
 // CoqTerm prints the case and the observation as a Gallina term (empty: not sent to the model).
 func CoqTerm(c *Case, obs *RunObs) string {
-	if obs.CompileErr != "" || obs.Ref == nil || len(obs.Segs) == 0 || c.SetFailAt > 0 {
+	if obs.CompileErr != "" || obs.Ref == nil || len(obs.Segs) == 0 || c.SetFailAt > 0 || c.hasEmpty() {
 		return "" // a failing store is not modelled: direct oracle only
 	}
 	gs := make([]string, len(c.Graphs))
